@@ -102,6 +102,12 @@ def oracle(run: runner.Run, oc: Outcome) -> None:
                     cycles.append(cur)
                     cur = []
                 cur_reason = None
+            elif s.reason in ('noop', 'free') and s.writes and not st.records(s.writes[-1].after):
+                # an abandoned cycle's leftovers were purged (the change under handling was reverted)
+                if cur:
+                    cycles.append(cur)
+                    cur = []
+                cur_reason = None
         if cur:
             cycles.append(cur)
 
@@ -150,7 +156,24 @@ def oracle(run: runner.Run, oc: Outcome) -> None:
                 continue
             view = snapshots.get((uid, s.rv))
             view_recs = st.records(view) if view is not None else None
-            for w in s.writes:
+            # A step whose view is older than this operator's own acknowledged writes acts on outdated
+            # information by design (after the consistency timeout): its decisions are not judged here.
+            own_before = [int(t.after['metadata']['resourceVersion']) for t in run.transitions
+                          if t.uid == uid and common.op_of(t.actor) == opid and t.after is not None
+                          and t.seq < s.seq0]
+            try:
+                stale_view = bool(own_before) and int(s.rv) < max(own_before)
+            except (TypeError, ValueError):
+                stale_view = False
+            if not stale_view:
+                # ... and so is every later step of an object whose own echo was once delayed beyond the
+                # consistency timeout (the stale step's write may have mixed two cycles' records).
+                name_ = (view or {}).get('metadata', {}).get('name')
+                stale_view = any(e[2] == 'fault-echo' and e[4] == name_ and e[7] - e[6] >= ctimeout * 0.9
+                                 and e[6] <= s.t0 for e in run.sim.trace)
+            if stale_view:
+                oc.probes['probe.stale-view-step'] = oc.probes.get('probe.stale-view-step', 0) + 1
+            for w in (s.writes if not stale_view else []):
                 before_recs = st.records(w.before)
                 after_recs = st.records(w.after) if w.after is not None else {}
                 final_now = {c.hid for c in s.calls if c.seq1 is not None and c.seq1 <= w.seq
